@@ -442,20 +442,42 @@ CHUNK = 500
 
 
 def guard_periodic(lo):
-    """sin/cos/tan of an astronomically large argument (e.g. sin(exp(cube(...)))) make mpmath raise its working precision to the
-    size of the argument; such a point carries no information at 30 digits, so it is treated as undefined (this process only)"""
+    """Numerical guards on liboracle's evaluation namespaces (this process only).  sin/cos/tan of an astronomically large
+    argument (e.g. sin(exp(cube(...)))) make mpmath raise its working precision to the size of the argument, and a power with an
+    astronomically large integer exponent (e.g. pow(x, tenexp(tenexp(a0)))) makes it allocate the exponent bit by bit; such a
+    point carries no information at 30 digits, so it is treated as undefined."""
     import mpmath as mp
-    bound = mp.mpf(10) ** 30
+    big_arg = mp.mpf(10) ** 30
+    big_exp = mp.mpf(10) ** 4
 
-    def g(fn):
+    def periodic(fn):
         def f(a):
-            if abs(a) > bound:
+            if abs(a) > big_arg:
                 raise lo.Undefined("periodic function of a huge argument")
             return fn(a)
         return f
+
+    def power(fn):
+        def f(a, b):
+            if abs(b) > big_arg or (a != 0 and abs(b) * abs(mp.log(abs(a))) > big_exp):
+                raise lo.Undefined("power beyond any meaningful comparison")
+            return fn(a, b)
+        return f
+
+    def expo(fn, scale):
+        def f(a):
+            if abs(a) * scale > big_exp:
+                raise lo.Undefined("exponential beyond any meaningful comparison")
+            return fn(a)
+        return f
     for mode in ("esr", "plain"):
+        ns = lo._NS[mode]
         for name, fn in (("sin", mp.sin), ("cos", mp.cos), ("tan", mp.tan)):
-            lo._NS[mode][name] = g(fn)
+            ns[name] = periodic(fn)
+        for name in ("pow", "pow_abs", "__pow"):
+            ns[name] = power(ns[name])
+        ns["exp"] = expo(ns["exp"], 1)
+        ns["tenexp"] = expo(ns["tenexp"], mp.log(10))
 
 
 def search_one(args):
